@@ -105,21 +105,20 @@ Section RoundTrip.
   Lemma land_small m k : m < 2 ^ k -> N.land m (N.ones k) = m.
   Proof. intro Hm. rewrite N.land_ones. now apply N.mod_small. Qed.
 
-  Lemma mode_file m : (m <=? 511) = true ->
+  Lemma mode_file m : (m <=? 4095) = true ->
     (if preserve then chmod_mode m else create_mode file_create_bits umask m) = restored_mode umask preserve m.
   Proof.
-    intro Hm. apply N.leb_le in Hm. unfold restored_mode, chmod_mode, create_mode, perm_bits, file_create_bits.
-    destruct preserve.
-    - change 511 with (N.ones 9). apply land_small. change (2 ^ 9) with 512. lia.
-    - change 4095 with (N.ones 12). rewrite land_small; [reflexivity|]. change (2 ^ 12) with 4096. lia.
+    intro Hm. apply N.leb_le in Hm. unfold restored_mode, chmod_mode, create_mode, file_create_bits.
+    change 4095 with (N.ones 12).
+    destruct preserve; rewrite land_small; try reflexivity; change (2 ^ 12) with 4096; change (N.ones 12) with 4095 in Hm; lia.
   Qed.
 
-  Lemma mode_dir m : (m <=? 511) = true ->
+  Lemma mode_dir m : (m <=? 1023) = true ->
     (if preserve then chmod_mode m else create_mode dir_create_bits umask m) = restored_mode umask preserve m.
   Proof.
-    intro Hm. apply N.leb_le in Hm. unfold restored_mode, chmod_mode, create_mode, perm_bits, dir_create_bits.
+    intro Hm. apply N.leb_le in Hm. unfold restored_mode, chmod_mode, create_mode, file_create_bits, dir_create_bits.
     destruct preserve.
-    - change 511 with (N.ones 9). apply land_small. change (2 ^ 9) with 512. lia.
+    - change 4095 with (N.ones 12). apply land_small. change (2 ^ 12) with 4096. lia.
     - change 1023 with (N.ones 10). rewrite land_small; [reflexivity|]. change (2 ^ 10) with 1024. lia.
   Qed.
 
@@ -350,8 +349,8 @@ Section RoundTrip.
     { unfold extract_entry. simpl. rewrite strip_prefix_app. simpl. reflexivity. }
     assert (H2rel : fs_lookup f2 [] = Some (NDir md)).
     { unfold f2, md. destruct preserve eqn:Ep.
-      - rewrite lookup_set_same. f_equal. f_equal. unfold restored_mode, chmod_mode, perm_bits.
-        apply N.leb_le in Hm. change 511 with (N.ones 9). apply land_small. change (2 ^ 9) with 512. lia.
+      - rewrite lookup_set_same. f_equal. f_equal. unfold restored_mode, chmod_mode, file_create_bits.
+        apply N.leb_le in Hm. change 4095 with (N.ones 12). apply land_small. change (2 ^ 12) with 4096. lia.
       - reflexivity. }
     assert (H2other : forall q, [] <> q -> fs_lookup f2 q = None).
     { intros q Hq. unfold f2. destruct preserve; [rewrite lookup_set_other by exact Hq|];
@@ -666,6 +665,10 @@ Proof.
   - intros n d [E|[E|[]]]; injection E as _ <-; now left.
   - exists (b "b"), 1%nat. split; [right; now left|reflexivity].
 Qed.
+
+(* before the fix PreservePermissions lost setuid/setgid/sticky *)
+Theorem chmod_prefix_refuted : exists m, (m <=? 4095) = true /\ chmod_mode_prefix m <> m /\ chmod_mode m = m.
+Proof. exists 1023. vm_compute. repeat split; discriminate. Qed.
 
 (* the directory itself does not get its recorded mode back without PreservePermissions *)
 Definition root_mode_witness : tree := Dir 448 0 [(b "f", File (b "x") 420 0)].
